@@ -69,11 +69,12 @@ Record fixes := mk_fixes { fx_open : bool; fx_create : bool; fx_append : bool }.
 Definition no_fixes : fixes := mk_fixes false false false.
 Definition all_fixes : fixes := mk_fixes true true true.
 
-Record cfg := mk_cfg { c_seal : bool; c_no_open : bool; c_fx : fixes }.
+Record cfg := mk_cfg { c_seal : bool; c_no_open : bool; c_fx : fixes; c_writeback : bool }.
 
 Inductive req : Type :=
 | Open (slot file flags : N)
 | Create (slot file flags : N)               (* CREATE on the existing name of [file] *)
+| Read (slot file rflags : N)                 (* READ: its flag word goes through check_fd_flags too *)
 | Write (slot file off len wflags : N)
 | Fallocate (slot file mode off len : N)
 | Setattr (file : N) (with_size : bool) (newsize : N)
@@ -100,8 +101,11 @@ Definition seal_size_check (is_write : bool) (file_size offset size mode : N) : 
 Definition open_effect (s : state) (file flags : N) : state :=
   if has flags O_TRUNC then set_size s file 0 else s.
 
-Definition new_hdl (file flags : N) : hdl :=
-  mk_hdl file flags (acc_mode flags) (has flags O_APPEND).
+(* get_writeback_open_flags: with the writeback cache negotiated, O_WRONLY is opened O_RDWR and O_APPEND is
+   not passed to the host; HandleData keeps the client's flag word *)
+Definition new_hdl (wb : bool) (file flags : N) : hdl :=
+  mk_hdl file flags (if wb && (acc_mode flags =? 1) then 2 else acc_mode flags)
+         (has flags O_APPEND && negb wb).
 
 (* get_data: the handle, or under no_open a fresh O_RDWR fd on the inode *)
 Definition get_data (C : cfg) (s : state) (slot file : N) : option hdl :=
@@ -122,14 +126,22 @@ Definition step (H : host) (C : cfg) (s : state) (r : req) : N * state :=
   | Open slot file flags =>
     if c_no_open C then (ENOSYS, s)
     else if fx_open (c_fx C) && c_seal C && has flags O_TRUNC then (EPERM, s)
-    else (0, set_slot (open_effect s file flags) slot (Some (new_hdl file flags)))
+    else (0, set_slot (open_effect s file flags) slot (Some (new_hdl (c_writeback C) file flags)))
   | Create slot file flags =>
     (* create_file_excl fails with EEXIST: error if O_EXCL, else open_inode(entry.inode, flags) *)
     if has flags O_EXCL then (EEXIST, s)
     else if fx_create (c_fx C) && c_seal C && has flags O_TRUNC then (EPERM, s)
     else
       let s1 := open_effect s file flags in
-      if c_no_open C then (0, s1) else (0, set_slot s1 slot (Some (new_hdl file flags)))
+      if c_no_open C then (0, s1) else (0, set_slot s1 slot (Some (new_hdl (c_writeback C) file flags)))
+  | Read slot file rflags =>
+    match get_data C s slot file with
+    | None => (EBADF, s)
+    | Some h0 =>
+      let h := check_fd_flags h0 rflags in
+      let s1 := if c_no_open C then s else set_slot s slot (Some h) in
+      if hd_acc h =? 1 then (EBADF, s1) else (0, s1)        (* fd not open for reading *)
+    end
   | Write slot file off len wflags =>
     match get_data C s slot file with
     | None => (EBADF, s)
